@@ -1,73 +1,166 @@
 """Streaming: producers append string-keyed records to a partitioned EventLog (retention by time / size) and
 feed a windowed StreamProcessor with jittered (partly late) event times; a ConsumerGroup (range / round-robin /
 sticky assignment) whose members join, leave and re-join (rebalances), poll, commit every n-th poll and feed a
-second StreamProcessor from the polled records; a direct partition reader.  All under the engine."""
+second StreamProcessor from the polled records; a direct partition reader.  All under the engine.
+
+Configuration coverage (widened):
+  * EventLog: every constructor parameter — 1..12 partitions, `sharding_strategy` None (library default) /
+    HashSharding / RangeSharding (alphabetical and with boundaries) / ConsistentHashSharding (virtual nodes, seed),
+    TimeRetention / SizeRetention / none, append / read latency incl. 0, retention check interval from 5 ms to longer
+    than the run (shorter / longer than the maximum age; lossy values);
+  * ConsumerGroup: `assignment_strategy` None (library default) / Range / RoundRobin / Sticky — `strategy = "all"`
+    runs one group per strategy over the SAME log with the same membership script in ONE run — rebalance delay from 0
+    to longer than the gaps of the membership script (overlapping rebalances), poll latency incl. 0, session_timeout;
+    membership scripts with same-instant joins, double joins, leaves of non-members, polls of non-members;
+    `max_records` 1 .. above the library default 100 and the default itself;
+  * StreamProcessor: a bank of processors (all three window kinds, all three late-event policies, with and without
+    side output) fed by the same producers in ONE run; window size / slide / gap / allowed lateness / watermark
+    interval from `dur_ms` with varying order (slide longer than size, watermark interval longer than the window,
+    lateness longer than the window, tiny session gap); event time as float seconds, as Instant, exact clock reading
+    (lossy floats) or absent (processor falls back to its clock);
+  * load regimes: light, sustained overload of the consumers (append rate far above what the polls take out: lag
+    grows for the whole run; with retention the unread records expire), bursts of same-instant appends;
+  * key spaces from 1 to 200 keys, alphabetic key prefixes (so that RangeSharding spreads them);
+  * occasional long run (8-12 s).
+"""
 from __future__ import annotations
 
 import random
 
-from hv.scenarios.base import T, seed_all, stats_of, sub_seed
+from hv.scenarios.base import T, dur_ms, seed_all, stats_of, sub_seed
 
 NAME = "streaming"
 MODEL = "C19"
-COMPONENTS = ["EventLog", "TimeRetention", "SizeRetention", "HashSharding", "ConsumerGroup", "RangeAssignment",
+COMPONENTS = ["EventLog", "TimeRetention", "SizeRetention", "HashSharding", "RangeSharding",
+              "ConsistentHashSharding", "ConsumerGroup", "RangeAssignment",
               "RoundRobinAssignment", "StickyAssignment", "StreamProcessor", "TumblingWindow", "SlidingWindow",
               "SessionWindow", "LateEventPolicy", "Source"]
 
 WINDOWS = ["tumbling", "sliding", "session"]
 POLICIES = ["DROP", "UPDATE", "SIDE_OUTPUT"]
+STRATEGIES = ["range", "roundrobin", "sticky"]
 
 
-def _gen_window(rng):
-    return {"kind": rng.choice(WINDOWS), "size_ms": rng.choice([100, 200, 250, 500]),
-            "slide_ms": rng.choice([50, 100, 200]), "gap_ms": rng.choice([20, 50, 120]),
-            "lateness_ms": rng.choice([0, 0, 50, 200]), "policy": rng.choice(POLICIES),
-            "side": rng.random() < 0.8, "wm_ms": rng.choice([50, 100, 250]),
-            "agg": rng.choice(["count", "sum", "keys"])}
+def _gen_window(rng, kind=None, policy=None, src=None, long=False):
+    size = dur_ms(rng, 20, rng.choice([300, 1000, 2500]))
+    # slide between size/8 (at most 8 windows per event) and twice the size (gaps between windows)
+    slide = dur_ms(rng, max(10, size / 8.0), rng.choice([size, 2 * size]))
+    w = {"kind": kind or rng.choice(WINDOWS), "size_ms": size, "slide_ms": slide,
+         "gap_ms": dur_ms(rng, 1, rng.choice([30, 150, 600])),
+         "lateness_ms": 0 if rng.random() < 0.4 else dur_ms(rng, 1, rng.choice([100, 400, 2500])),
+         "policy": policy or rng.choice(POLICIES),
+         "side": rng.random() < 0.8,
+         "wm_ms": dur_ms(rng, 60 if long else 20, rng.choice([120, 400, 1500])),
+         "agg": rng.choice(["count", "sum", "keys"])}
+    if src is not None:
+        w["src"] = src
+    return w
+
+
+def _gen_sharding(rng, partitions):
+    k = rng.choice(["none", "none", "hash", "range", "range_b", "consistent"])
+    if k == "range_b":
+        # boundaries over the alphabetic key prefixes; at most partitions-1 boundaries (shard index < partitions)
+        nb = rng.randint(0, partitions - 1)
+        return {"kind": k, "boundaries": sorted(rng.sample("bcdefghijklmnopqrstuvwxy", nb))}
+    if k == "consistent":
+        return {"kind": k, "vnodes": rng.choice([1, 3, 20, 100]), "seed": rng.choice([None, 0, 7])}
+    return {"kind": k}
 
 
 def gen_cfg(rng):
-    end = rng.choice([2.0, 3.0, 4.0])
-    n_cons = rng.randint(2, 4)
+    long = rng.random() < 0.12
+    end = rng.choice([8.0, 10.0, 12.0]) if long else rng.choice([2.0, 3.0, 4.0])
+    regime = rng.choice(["light", "light", "overload", "burst"])
+    n_cons = rng.randint(1, 4)
     end_ms = int(end * 1000)
+    partitions = rng.choice([1, 2, 3, 4, 5, 6, 6, 12])
     # membership script: everyone joins early (two at the same instant), then leaves / re-joins
-    t0 = rng.randint(20, 150)
-    members = [[t0 if i < 2 else t0 + rng.randint(1, 400), i, "join"] for i in range(n_cons)]
+    t0 = dur_ms(rng, 20, 150)
+    members = [[t0 if i < 2 else dur_ms(rng, t0, t0 + 400), i, "join"] for i in range(n_cons)]
     state = [True] * n_cons
-    for _ in range(rng.randint(1, 5)):
+    for _ in range(rng.choice([0, 1, 2, 3, 5, 8])):
         i = rng.randrange(n_cons)
-        t = rng.randint(500, end_ms - 500)
+        t = dur_ms(rng, 500, end_ms - 500)
+        if rng.random() < 0.15:
+            members.append([t, i, "join" if state[i] else "leave"])      # double join / leave of a non-member
+            continue
         members.append([t, i, "leave" if state[i] else "join"])
         state[i] = not state[i]
+        if rng.random() < 0.25:                                           # somebody else changes at the same instant
+            j = rng.randrange(n_cons)
+            if j != i:
+                members.append([t, j, "leave" if state[j] else "join"])
+                state[j] = not state[j]
     members.sort(key=lambda m: (m[0], m[1]))
+    if long:
+        rates = [5, 10, 20]
+    elif regime == "overload":
+        rates = [150, 250, 400]
+    else:
+        rates = [20, 40, 80]
+    n_prod = rng.randint(1, 2) if regime == "overload" else rng.randint(1, 3)
+    strategy = rng.choice(["all", "all", "default", "range", "roundrobin", "sticky"])
+    if regime == "overload":
+        poll_rate, max_records = rng.choice([5, 10, 20]), rng.choice([1, 2, 5])
+    else:
+        poll_rate = rng.choice([5, 10] if long else [10, 20, 40])
+        max_records = rng.choice([1, 5, 20, 100, 101, 250, None])          # None: library default (100)
+    if rng.random() < 0.5:
+        # bank: every window kind and every late-event policy fed by the producers, one processor fed by the consumers
+        pol = POLICIES[:]
+        rng.shuffle(pol)
+        win = [_gen_window(rng, kind=k, policy=p, src="prod", long=long) for k, p in zip(WINDOWS, pol)]
+        win.insert(1, _gen_window(rng, src="cons", long=long))
+    else:
+        win = [_gen_window(rng, long=long), _gen_window(rng, long=long)]
+    ret_kind = rng.choice([None, "time", "size"])
+    retention = None
+    if ret_kind == "time":
+        retention = ["time", dur_ms(rng, 5, rng.choice([150, 1000, 3000]))]
+    elif ret_kind == "size":
+        retention = ["size", rng.choice([1, 3, 10, 40, 200])]
+    bursts = []
+    if regime == "burst" or rng.random() < 0.2:
+        bursts = [[dur_ms(rng, 50, end_ms - 700), rng.randrange(n_prod), rng.choice([5, 20, 60, 150])]
+                  for _ in range(rng.randint(1, 3))]
     return {
         "end": end,
-        "partitions": rng.randint(1, 6),
-        "retention": rng.choice([None, ["time", rng.choice([150, 400, 1000])], ["size", rng.choice([3, 10, 40])]]),
-        "ret_check_ms": rng.choice([50, 100, 300]),
-        "append_ms": rng.randint(1, 10),
-        "read_ms": rng.randint(1, 5),
-        "n_keys": rng.choice([3, 8, 20]),
-        "producers": [{"rate": rng.choice([20, 40, 80]), "poisson": rng.random() < 0.5}
-                      for _ in range(rng.randint(1, 3))],
-        "jitter_ms": rng.choice([0, 30, 150, 600]),
-        "late_pct": rng.choice([0, 10, 30]),
+        "regime": regime,
+        "partitions": partitions,
+        "sharding": _gen_sharding(rng, partitions),
+        "retention": retention,
+        "ret_check_ms": dur_ms(rng, 5, rng.choice([100, 400, 2500])) if rng.random() < 0.9 else dur_ms(rng, end_ms, 2 * end_ms),
+        "append_ms": dur_ms(rng, 0.1, rng.choice([10, 60]), zero=True),
+        "read_ms": dur_ms(rng, 0.1, rng.choice([5, 40]), zero=True),
+        "n_keys": rng.choice([1, 3, 8, 20, 200]),
+        "key_style": rng.choice(["user", "alpha"]),
+        "producers": [{"rate": rng.choice(rates), "poisson": rng.random() < 0.5} for _ in range(n_prod)],
+        "bursts": bursts,
+        "jitter_ms": rng.choice([0, 30, 150, 600, 2500]),
+        "late_pct": rng.choice([0, 10, 30, 100]),
         "et_instant": rng.random() < 0.3,
-        "strategy": rng.choice(["range", "roundrobin", "sticky"]),
-        "rebalance_ms": rng.choice([10, 50, 200]),
-        "poll_ms": rng.randint(1, 8),
+        "et_exact": rng.random() < 0.4,
+        "et_none_pct": rng.choice([0, 0, 20, 100]),
+        "strategy": strategy,
+        "rebalance_ms": dur_ms(rng, 1, rng.choice([50, 300, 1200]), zero=True),
+        "poll_ms": dur_ms(rng, 0.1, rng.choice([8, 60]), zero=True),
+        "session_timeout_ms": rng.choice([None, dur_ms(rng, 10, 3000)]),
         "n_cons": n_cons,
         "members": members,
-        "poll_rate": rng.choice([10, 20, 40]),
-        "max_records": rng.choice([1, 5, 20, 100]),
-        "proc_ms": rng.randint(0, 15),
+        "poll_rate": poll_rate,
+        "poll_unjoined": rng.random() < 0.2,
+        "max_records": max_records,
+        "proc_ms": dur_ms(rng, 0.1, rng.choice([15, 120]), zero=True),
         "commit_every": rng.randint(1, 3),
         "reader_rate": rng.choice([0, 5, 20]),
-        "win": [_gen_window(rng), _gen_window(rng)],
+        "read_max": rng.choice([7, 7, 1, 100, 150, None, 0]),              # None: library default (100)
+        "win": win,
     }
 
 
 def build(cfg, seed):
+    from happysimulator.components.datastore.sharded_store import ConsistentHashSharding, HashSharding, RangeSharding
     from happysimulator.components.streaming import (
         ConsumerGroup, EventLog, LateEventPolicy, RangeAssignment, RoundRobinAssignment, SessionWindow,
         SizeRetention, SlidingWindow, StickyAssignment, StreamProcessor, TimeRetention, TumblingWindow)
@@ -80,17 +173,35 @@ def build(cfg, seed):
     seed_all(seed)
     end = cfg["end"]
     stop = end - 0.5
+    n_parts = cfg["partitions"]
 
     ret = cfg["retention"]
     policy = None
     if ret is not None:
         policy = TimeRetention(max_age_s=ret[1] / 1000.0) if ret[0] == "time" else SizeRetention(max_records=ret[1])
-    log = EventLog("events", num_partitions=cfg["partitions"], retention_policy=policy,
+    sh = cfg.get("sharding") or {"kind": "none"}
+    sharding = None
+    if sh["kind"] == "hash":
+        sharding = HashSharding()
+    elif sh["kind"] == "range":
+        sharding = RangeSharding()
+    elif sh["kind"] == "range_b":
+        sharding = RangeSharding(boundaries=list(sh["boundaries"])[:max(0, n_parts - 1)])
+    elif sh["kind"] == "consistent":
+        sharding = ConsistentHashSharding(virtual_nodes=sh["vnodes"], seed=sh["seed"])
+    log = EventLog("events", num_partitions=n_parts, sharding_strategy=sharding, retention_policy=policy,
                    append_latency=cfg["append_ms"] / 1000.0, read_latency=cfg["read_ms"] / 1000.0,
                    retention_check_interval=cfg["ret_check_ms"] / 1000.0)
-    strategy = {"range": RangeAssignment, "roundrobin": RoundRobinAssignment, "sticky": StickyAssignment}[cfg["strategy"]]()
-    group = ConsumerGroup("group", event_log=log, assignment_strategy=strategy,
-                          rebalance_delay=cfg["rebalance_ms"] / 1000.0, poll_latency=cfg["poll_ms"] / 1000.0)
+    strat_cls = {"range": RangeAssignment, "roundrobin": RoundRobinAssignment, "sticky": StickyAssignment}
+    strat_names = STRATEGIES if cfg["strategy"] == "all" else [cfg["strategy"]]
+    sess = cfg.get("session_timeout_ms")
+    groups = []
+    for gi, sn in enumerate(strat_names):
+        groups.append(ConsumerGroup("group" if gi == 0 else f"group-{sn}", event_log=log,
+                                    assignment_strategy=None if sn == "default" else strat_cls[sn](),
+                                    rebalance_delay=cfg["rebalance_ms"] / 1000.0,
+                                    poll_latency=cfg["poll_ms"] / 1000.0,
+                                    session_timeout=None if sess is None else sess / 1000.0))
 
     class Results(Entity):
         def __init__(self, name):
@@ -123,7 +234,15 @@ def build(cfg, seed):
         return p, out, side
 
     procs = [make_proc(i, w) for i, w in enumerate(cfg["win"])]
-    proc0, proc1 = procs[0][0], procs[1][0]
+    srcs = [w.get("src", "cons" if i == 1 else "prod") for i, w in enumerate(cfg["win"])]
+    prod_procs = [p[0] for p, s in zip(procs, srcs) if s == "prod"]
+    cons_procs = [p[0] for p, s in zip(procs, srcs) if s == "cons"]
+    key_style = cfg.get("key_style", "user")
+    et_exact = cfg.get("et_exact", False)
+    et_none_pct = cfg.get("et_none_pct", 0)
+
+    def key_of(k):
+        return f"user-{k}" if key_style == "user" else f"{chr(97 + (k * 7) % 26)}{k}-user"
 
     class Producer(Entity):
         def __init__(self, i):
@@ -135,26 +254,34 @@ def build(cfg, seed):
 
         def handle_event(self, event):
             self.n += 1
-            key = f"user-{self.rng.randrange(cfg['n_keys'])}"
+            key = key_of(self.rng.randrange(cfg["n_keys"]))
             value = {"seq": self.n, "src": self.name}
             t_ms = self.now.nanoseconds // 1_000_000
+            if et_exact:
+                t_ms = self.now.to_seconds() * 1000.0
             if self.rng.randrange(100) < cfg["late_pct"]:
                 t_ms -= self.rng.randint(0, cfg["jitter_ms"])
             t_ms = max(0, t_ms)
+            no_et = et_none_pct and self.rng.randrange(100) < et_none_pct
             rec = yield from log.append(key, value)
             if len(self.appended) < 6:
                 self.appended.append([rec.key, rec.partition, rec.offset, rec.timestamp])
-            ctx = {"key": key, "value": value}
-            if cfg["et_instant"]:
-                ctx["event_time"] = Instant.from_seconds(t_ms / 1000.0)
-            else:
-                ctx["event_time_s"] = t_ms / 1000.0
-            return [Event(time=self.now, event_type="Process", target=proc0, context=ctx)]
+            out = []
+            for proc in prod_procs:
+                ctx = {"key": key, "value": value}
+                if no_et:
+                    pass                                      # the processor uses its own clock
+                elif cfg["et_instant"]:
+                    ctx["event_time"] = Instant.from_seconds(t_ms / 1000.0)
+                else:
+                    ctx["event_time_s"] = t_ms / 1000.0
+                out.append(Event(time=self.now, event_type="Process", target=proc, context=ctx))
+            return out
 
     class Consumer(Entity):
-        def __init__(self, i):
-            super().__init__(f"consumer-{i}")
-            self.i = i
+        def __init__(self, i, gi, group):
+            super().__init__(f"consumer-{i}" if gi == 0 else f"consumer-{strat_names[gi]}-{i}")
+            self.i, self.gi, self.group = i, gi, group
             self.joined = False
             self.assigned_log = []
             self.polls = 0
@@ -166,6 +293,7 @@ def build(cfg, seed):
 
         def handle_event(self, event):
             typ = event.event_type
+            group = self.group
             if typ == "DoJoin":
                 assigned = yield from group.join(self.name, self)
                 self.joined = True
@@ -176,9 +304,12 @@ def build(cfg, seed):
                 yield from group.leave(self.name)
                 self.assigned_log.append([self.now.nanoseconds, None])
                 return None
-            if typ != "PollCycle" or not self.joined:
+            if typ != "PollCycle" or not (self.joined or cfg.get("poll_unjoined", False)):
                 return None
-            records = yield from group.poll(self.name, cfg["max_records"])
+            if cfg["max_records"] is None:
+                records = yield from group.poll(self.name)
+            else:
+                records = yield from group.poll(self.name, cfg["max_records"])
             self.polls += 1
             if not records:
                 return None
@@ -197,9 +328,12 @@ def build(cfg, seed):
                 self.last = [rec.key, rec.partition, rec.offset]
             if self.polls % cfg["commit_every"] == 0:
                 yield from group.commit(self.name, offsets)
-            for rec in records:
-                out.append(Event(time=self.now, event_type="Process", target=proc1,
-                                 context={"key": rec.key, "value": rec.value, "event_time_s": rec.timestamp}))
+            if self.gi == 0:
+                for rec in records:
+                    for proc in cons_procs:
+                        out.append(Event(time=self.now, event_type="Process", target=proc,
+                                         context={"key": rec.key, "value": rec.value,
+                                                  "event_time_s": rec.timestamp}))
             return out
 
     class Reader(Entity):
@@ -214,7 +348,11 @@ def build(cfg, seed):
             pid = self.reads % cfg["partitions"]
             self.reads += 1
             off = self.next.get(pid, 0)
-            recs = yield from log.read(pid, off, 7)
+            rm = cfg.get("read_max", 7)
+            if rm is None:
+                recs = yield from log.read(pid, off)
+            else:
+                recs = yield from log.read(pid, off, rm)
             for r in recs:
                 if r.offset != off:
                     self.gaps += 1  # records expired by retention before being read
@@ -224,7 +362,7 @@ def build(cfg, seed):
             return None
 
     producers = [Producer(i) for i in range(len(cfg["producers"]))]
-    consumers = [Consumer(i) for i in range(cfg["n_cons"])]
+    consumers = [Consumer(i, gi, g) for gi, g in enumerate(groups) for i in range(cfg["n_cons"])]
     reader = Reader()
     sources = []
     for i, p in enumerate(cfg["producers"]):
@@ -233,32 +371,43 @@ def build(cfg, seed):
                           stop_after=stop))
     for c in consumers:
         sources.append(Source.constant(rate=cfg["poll_rate"], target=c, event_type="PollCycle",
-                                       name=f"src-poll-{c.i}", stop_after=end - 0.1))
+                                       name=f"src-poll-{c.name}" if c.gi else f"src-poll-{c.i}",
+                                       stop_after=end - 0.1))
     if cfg["reader_rate"]:
         sources.append(Source.constant(rate=cfg["reader_rate"], target=reader, event_type="ReadTick",
                                        name="src-reader", stop_after=end - 0.1))
-    ents = [log, group, reader, *producers, *consumers]
+    ents = [log, *groups, reader, *producers, *consumers]
     for p, out, side in procs:
         ents += [p, out, side]
     sim = Simulation(end_time=T(end), sources=sources, entities=ents)
     for t_ms, i, what in cfg["members"]:
-        sim.schedule(Event(time=Instant.from_seconds(t_ms / 1000.0),
-                           event_type="DoJoin" if what == "join" else "DoLeave", target=consumers[i]))
+        for c in consumers:
+            if c.i == i:
+                sim.schedule(Event(time=Instant.from_seconds(t_ms / 1000.0),
+                                   event_type="DoJoin" if what == "join" else "DoLeave", target=c))
+    for t_ms, i, n in cfg.get("bursts", []):
+        for _ in range(n):
+            sim.schedule(Event(time=Instant.from_seconds(t_ms / 1000.0), event_type="Tick",
+                               target=producers[i % len(producers)]))
 
     def log_obs():
-        return {"hw": log.high_watermarks(), "total": log.total_records,
+        return {"hw": log.high_watermarks(), "total": log.total_records, "n": log.num_partitions,
                 "parts": [[p.id, len(p.records), p.records[0].offset if p.records else None,
                            p.records[-1].key if p.records else None, p.high_watermark] for p in log.partitions],
                 "avg_append": log.stats.avg_append_latency}
 
-    def group_obs():
+    def group_obs(group, gi):
+        mine = [c for c in consumers if c.gi == gi]
         return {"assignments": group.assignments, "generation": group.generation, "consumers": group.consumers,
                 "count": group.consumer_count, "total_lag": group.total_lag(),
-                "lag": {c.name: group.consumer_lag(c.name) for c in consumers}}
+                "lag": {c.name: group.consumer_lag(c.name) for c in mine}}
 
-    obs = {"log": stats_of(log), "log.x": log_obs, "group": stats_of(group), "group.x": group_obs,
+    obs = {"log": stats_of(log), "log.x": log_obs,
            "reader": lambda: {"n": reader.n, "gaps": reader.gaps, "reads": reader.reads,
                               "next": sorted(reader.next.items())}}
+    for gi, g in enumerate(groups):
+        obs[g.name] = stats_of(g)
+        obs[g.name + ".x"] = (lambda g=g, gi=gi: group_obs(g, gi))
     for p, out, side in procs:
         obs[p.name] = stats_of(p)
         obs[p.name + ".x"] = (lambda p=p: {"watermark": p.watermark_s, "active": p.active_windows,
